@@ -249,22 +249,40 @@ func facts(f *hc.Facts) {
 	f.Bool("decryptInitIsReversed", strings.Contains(gd, "initRev[left],initRev[right]=initRev[right],initRev[left]"), "getDecryptInit: the copied range is reversed in place")
 	ac := squash(f.FuncSrc(dir, "Accept"))
 	f.Bool("acceptSwaps", strings.Contains(ac, "k.encrypt,k.decrypt=k.decrypt,k.encrypt"), "Accept: k.encrypt, k.decrypt = k.decrypt, k.encrypt")
-	// Obfuscated2.Read: the bytes are decrypted before an error of the underlying Read can end the call
-	decFirst := false
+	// Obfuscated2.Read: on which errors of the underlying Read the n bytes are handed back WITHOUT being
+	// decrypted (0 = never, 1 = on errors other than io.EOF, 2 = on every error) — interpreted by the model
+	skip := -1
 	if fd := f.FuncDecl(dir, "Obfuscated2.Read"); fd != nil && fd.Body != nil {
-		xorAt, retAt := -1, -1
-		for i, st := range fd.Body.List {
+		skip = 0
+		for _, st := range fd.Body.List {
 			src := squash(f.Src(st))
-			if xorAt < 0 && strings.Contains(src, "o.decrypt.XORKeyStream(b[:n],b[:n])") {
-				xorAt = i
+			if strings.Contains(src, "XORKeyStream(") {
+				break // statements from here on run after (or together with) the decryption
 			}
-			if is, ok := st.(*ast.IfStmt); ok && retAt < 0 && strings.Contains(squash(f.Src(is.Cond)), "err!=nil") && !strings.Contains(src, "XORKeyStream") {
-				retAt = i
+			is, ok := st.(*ast.IfStmt)
+			if !ok || !strings.Contains(squash(f.Src(is.Cond)), "err!=nil") {
+				continue
+			}
+			if _, ret := is.Body.List[len(is.Body.List)-1].(*ast.ReturnStmt); !ret {
+				continue
+			}
+			if strings.Contains(squash(f.Src(is.Cond)), "io.EOF") {
+				if skip < 1 {
+					skip = 1
+				}
+			} else {
+				skip = 2
 			}
 		}
-		decFirst = xorAt >= 0 && (retAt < 0 || xorAt < retAt)
+		if !strings.Contains(squash(f.FuncSrc(dir, "Obfuscated2.Read")), "XORKeyStream(") {
+			skip = -1
+		}
 	}
-	f.Bool("readDecryptsWithError", decFirst, "Obfuscated2.Read: XORKeyStream(b[:n]) is not preceded by `if err != nil { return }`")
+	if skip < 0 {
+		f.Missing("readSkipsDecryptOn", "Obfuscated2.Read: XORKeyStream not found")
+	} else {
+		f.Nat("readSkipsDecryptOn", skip, "Obfuscated2.Read returns before XORKeyStream: 0 never, 1 on non-EOF errors, 2 on any error")
+	}
 }
 
 type pipeRW struct {
@@ -289,12 +307,19 @@ func chunks(r *hc.RNG, data []byte) [][]byte {
 	return out
 }
 
+// errTemporary is a non-EOF error a connection may deliver together with data (e.g. a deadline that
+// fires while bytes were already received); reading can go on afterwards.
+var errTemporary = errors.New("temporary read error (delivered together with data)")
+
 // listReader returns exactly the prepared chunks, one per Read.  With eofWithLast the last chunk is
-// returned together with io.EOF, which the io.Reader contract allows ("a Reader returning a non-zero
-// number of bytes at the end of the input stream may return either err == EOF or err == nil").
+// returned together with io.EOF; chunks listed in tempErr are returned together with errTemporary.
+// Both are allowed by the io.Reader contract ("callers should always process the n > 0 bytes
+// returned before considering the error").
 type listReader struct {
 	chunks      [][]byte
 	eofWithLast bool
+	tempErr     map[int]bool // index (in the original list) of chunks delivered with errTemporary
+	idx         int
 }
 
 func (l *listReader) Read(p []byte) (int, error) {
@@ -303,7 +328,8 @@ func (l *listReader) Read(p []byte) (int, error) {
 	}
 	c := l.chunks[0]
 	n := copy(p, c)
-	if n < len(c) {
+	whole := n == len(c)
+	if !whole {
 		l.chunks[0] = c[n:]
 	} else {
 		l.chunks = l.chunks[1:]
@@ -311,7 +337,42 @@ func (l *listReader) Read(p []byte) (int, error) {
 	if l.eofWithLast && len(l.chunks) == 0 {
 		return n, io.EOF
 	}
+	if whole {
+		i := l.idx
+		l.idx++
+		if l.tempErr[i] && n > 0 {
+			return n, errTemporary
+		}
+	}
 	return n, nil
+}
+
+// readTolerant reads until io.EOF, going on after errTemporary (keeping the bytes that came with it).
+func readTolerant(r io.Reader) []byte {
+	var out []byte
+	buf := make([]byte, 4096)
+	for {
+		n, err := r.Read(buf)
+		out = append(out, buf[:n]...)
+		if err != nil && !errors.Is(err, errTemporary) {
+			return out
+		}
+	}
+}
+
+// hexListE renders chunks, marking those delivered with errTemporary by a trailing `t`.
+func hexListE(bs [][]byte, tempErr map[int]bool) string {
+	if len(bs) == 0 {
+		return "-"
+	}
+	s := make([]string, len(bs))
+	for i, b := range bs {
+		s[i] = hc.Hex(b)
+		if tempErr[i] {
+			s[i] += "t"
+		}
+	}
+	return strings.Join(s, ",")
 }
 
 func hexList(bs [][]byte) string {
@@ -424,8 +485,74 @@ func run(c *hc.Ctx) error {
 		if bad {
 			fail(c, "header-reserved-prefix", hline, "header starts with "+hc.Hex(header[:8]))
 		}
-		// server
-		sconn := &pipeRW{in: &listReader{chunks: chunks(r, header)}}
+		// the client sends its data right behind the header, before the server gets to Accept: whatever is
+		// queued behind the 64 header bytes must still reach the server's Read calls
+		var c2s, s2c [][]byte
+		for j := r.Intn(5); j > 0; j-- {
+			c2s = append(c2s, r.Bytes(hc.Pick(r, 0, 1, 15, 16, 17, 48, r.Range(1, 200))))
+		}
+		for j := r.Intn(5); j > 0; j-- {
+			s2c = append(s2c, r.Bytes(hc.Pick(r, 0, 1, 15, 16, 17, 48, r.Range(1, 200))))
+		}
+		if i <= 100 { // dense sweep: every write size 0..302, three consecutive sizes per direction
+			c2s = [][]byte{r.Bytes(3 * i), r.Bytes(3*i + 1), r.Bytes(3*i + 2)}
+			s2c = [][]byte{r.Bytes(3*i + 2), r.Bytes(3 * i), r.Bytes(3*i + 1)}
+			c.Count("data.dense-sizes")
+		}
+		cconn.out.Reset()
+		for _, w := range c2s {
+			if n, err := cl.Write(append([]byte{}, w...)); err != nil || n != len(w) {
+				fail(c, "write-result", hline, fmt.Sprintf("client Write(%d) = %d, %v", len(w), n, err))
+			}
+		}
+		wireUp := append([]byte{}, cconn.out.Bytes()...)
+		// server: header and data arrive in PRNG-chosen pieces that need not respect the header boundary
+		all := append(append([]byte{}, header...), wireUp...)
+		var allChunks [][]byte
+		switch r.Intn(4) {
+		case 0:
+			allChunks = [][]byte{all} // everything readable at once
+		case 1:
+			allChunks = append(chunks(r, header), chunks(r, wireUp)...)
+		default:
+			allChunks = chunks(r, all)
+		}
+		// what the server's Read calls will see after Accept took its 64 bytes
+		var upChunks [][]byte
+		skip := 64
+		for _, ch := range allChunks {
+			if skip >= len(ch) {
+				skip -= len(ch)
+				continue
+			}
+			upChunks = append(upChunks, ch[skip:])
+			skip = 0
+		}
+		eofLast := r.Chance(30)
+		if eofLast {
+			c.Count("data.last-chunk-with-EOF")
+		}
+		upTemp, downTemp := map[int]bool{}, map[int]bool{}
+		if r.Chance(30) {
+			c.Count("data.chunk-with-temporary-error")
+			for k := range upChunks {
+				if r.Chance(40) {
+					upTemp[k] = true
+				}
+			}
+		}
+		// the reader numbers whole chunks as it delivers them; Accept consumes the chunks before upChunks
+		srvTemp := map[int]bool{}
+		off := len(allChunks) - len(upChunks)
+		for k := range upTemp {
+			srvTemp[off+k] = true
+		}
+		if len(upChunks) > 0 && len(allChunks) > 0 && len(upChunks[0]) != len(allChunks[off]) {
+			// the first data piece shares a chunk with the header: it is delivered by a partial copy first
+			delete(upTemp, 0)
+			delete(srvTemp, off)
+		}
+		sconn := &pipeRW{in: &listReader{chunks: allChunks, eofWithLast: eofLast, tempErr: srvTemp}}
 		srv, md, err := obfuscated2.Accept(sconn, secret)
 		if err != nil {
 			fail(c, "accept-error", hline, err.Error())
@@ -435,39 +562,26 @@ func run(c *hc.Ctx) error {
 			fail(c, "metadata", hline, fmt.Sprintf("accepted protocol %x dc %d, client sent %x dc %d", md.Protocol, md.DC, tag, uint16(dc)))
 		}
 		add(hline, fmt.Sprintf("ok %s %s %d", hc.Hex(header), hc.Hex(md.Protocol[:]), md.DC))
+		gotUp := readTolerant(srv)
 
-		// data, both directions, arbitrary write sizes and read chunkings
-		var c2s, s2c [][]byte
-		for j := r.Intn(5); j > 0; j-- {
-			c2s = append(c2s, r.Bytes(hc.Pick(r, 0, 1, 15, 16, 17, 48, r.Range(1, 200))))
-		}
-		for j := r.Intn(5); j > 0; j-- {
-			s2c = append(s2c, r.Bytes(hc.Pick(r, 0, 1, 15, 16, 17, 48, r.Range(1, 200))))
-		}
-		cconn.out.Reset()
-		for _, w := range c2s {
-			if n, err := cl.Write(append([]byte{}, w...)); err != nil || n != len(w) {
-				fail(c, "write-result", hline, fmt.Sprintf("client Write(%d) = %d, %v", len(w), n, err))
-			}
-		}
-		wireUp := append([]byte{}, cconn.out.Bytes()...)
 		for _, w := range s2c {
 			if n, err := srv.Write(append([]byte{}, w...)); err != nil || n != len(w) {
 				fail(c, "write-result", hline, fmt.Sprintf("server Write(%d) = %d, %v", len(w), n, err))
 			}
 		}
 		wireDown := append([]byte{}, sconn.out.Bytes()...)
-		upChunks, downChunks := chunks(r, wireUp), chunks(r, wireDown)
-		eofLast := r.Chance(30)
-		if eofLast {
-			c.Count("data.last-chunk-with-EOF")
+		downChunks := chunks(r, wireDown)
+		if len(upTemp) > 0 || r.Chance(15) {
+			for k := range downChunks {
+				if r.Chance(40) {
+					downTemp[k] = true
+				}
+			}
 		}
-		sconn.in = &listReader{chunks: append([][]byte{}, upChunks...), eofWithLast: eofLast}
-		gotUp, _ := io.ReadAll(srv)
-		cconn.in = &listReader{chunks: append([][]byte{}, downChunks...), eofWithLast: eofLast}
-		gotDown, _ := io.ReadAll(cl)
+		cconn.in = &listReader{chunks: append([][]byte{}, downChunks...), eofWithLast: eofLast, tempErr: downTemp}
+		gotDown := readTolerant(cl)
 		wantUp, wantDown := bytes.Join(c2s, nil), bytes.Join(s2c, nil)
-		dline := fmt.Sprintf("data %s %s %d %s %s %s %s %s %v", hc.Hex(tape), hc.Hex(tag[:]), dc, hc.Hex(secret), hexList(c2s), hexList(upChunks), hexList(s2c), hexList(downChunks), eofLast)
+		dline := fmt.Sprintf("data %s %s %d %s %s %s %s %s %v", hc.Hex(tape), hc.Hex(tag[:]), dc, hc.Hex(secret), hexList(c2s), hexListE(upChunks, upTemp), hexList(s2c), hexListE(downChunks, downTemp), eofLast)
 		c.Eval(dline, len(wantUp)+len(wantDown) > 0)
 		if !bytes.Equal(gotUp, wantUp) {
 			fail(c, "stream-client-to-server", dline, fmt.Sprintf("server read %d bytes, client wrote %d (or content differs)", len(gotUp), len(wantUp)))
